@@ -38,7 +38,7 @@ func c09(args []string) int {
 		fmt.Println("c09 needs the binary_log build")
 		return 2
 	}
-	total := f.N(40000, 2000000)
+	total := f.N(120000, 8000000)
 	var hits [9]map[string]int
 	x := &gen.Exec{}
 	for idx := 0; idx < total; idx++ {
